@@ -38,6 +38,7 @@
                                   a failing bank transfer.
 -/
 import SgeProofs.Lemmas.SettleBound
+import SgeProofs.Lemmas.SettleNoHaltInv
 import SgeProofs.Properties.C05
 import SgeProofs.Properties.C08Index
 namespace Sge.Core
@@ -232,6 +233,71 @@ theorem c05_settles_within_history (p : Params) (bal : List (Nat × Int)) (h t :
   exact c05_settles_within s hR k N M hN hM hNb hMb ops hwf hnh hba hcnt
 
 -- ---------------------------------------------------------------------------------------------
+-- "never aborts": the provable part
+
+/- The full statement "for every history of valid transactions end-block processing never aborts" is FALSE of the code
+   as it is: `c05_counterexample_halt` (C05.lean) is a history of valid transactions after which the end-blocker halts
+   — a backing part with a negative stake (KF-C03-negative-part) makes BettorWins pay a negative amount. What holds is
+   the statement below: the ONLY way an end-block can halt is a pay-out that the bank refuses, and the bank refuses
+   none in a solvent state. -/
+
+/-- C05.k  (partial: solvent states)  In a reachable, well-formed state `s` (`Reach s`, `HInv s`: both hold after
+    every history from the empty chain — `reach_init`/`run_reach`, `hinv_init`/`run_no_halt`) that is SOLVENT,
+        (1) no unsettled bet has a negative fee, a negative backing part (stake) or a negative promised profit, and
+        (2) no unpaid participation has a negative fee, and its liquidity plus realised profit covers the profit it
+            still owes to the unsettled bets on the DECLARED WINNING outcome of its market (for a market that is not
+            declared: liquidity plus realised profit is not negative),
+    the end-block does not halt: every bet and participation look-up, every status check, both Go slice removals, the
+    book status changes, and — by the custody equations of C01 (pool = liquidity ± realised profit of unpaid
+    participations + stakes of unsettled bets; fee collectors = fees of unsettled bets / unpaid participations) —
+    every bank transfer of refunds, winnings, fees and participation pay-outs succeeds. The state after the end-block
+    is again reachable, well formed and solvent.
+    EXCLUDED are exactly the states that are not `Solvent`: those reached through the inputs of known finding
+    KF-C03-negative-part (a fulfilment with negative stake, clause 1 — `c05_counterexample_halt` is such a state, see
+    the example below) and states with a participation over-exposed on the winner (clause 2, the subject of C02). -/
+theorem c05_no_halt_partial {s : State} (hR : Reach s) (hH : HInv s) (hV : Solvent s) :
+    endBlockO s ≠ none ∧ (step s .endBlock).2 = .ok ∧
+    Reach (step s .endBlock).1 ∧ HInv (step s .endBlock).1 ∧ Solvent (step s .endBlock).1 := by
+  obtain ⟨s', he, hS'⟩ := endBlockO_ok ⟨hR, hH, hV⟩
+  have hstep : step s .endBlock = (s', .ok) := by
+    show endBlock s = _
+    unfold endBlock
+    rw [he]
+  rw [hstep]
+  exact ⟨by rw [he]; exact (fun e => nomatch e), rfl, hS'.reach, hS'.wf, hS'.solv⟩
+
+/-- C05.l  (partial: solvent histories)  From the empty chain, through ANY history of operations signed by user
+    accounts in which the state is solvent whenever an end-block starts, no end-block halts (begin-block processing of
+    the core modules is empty). Nothing else is assumed: reachability and well-formedness are invariants. -/
+theorem c05_no_halt_history_partial (p : Params) (bal : List (Nat × Int)) (h t : Nat)
+    (h0 : getBal bal ACC_POOL = 0 ∧ getBal bal ACC_BETFEE = 0 ∧ getBal bal ACC_HOUSEFEE = 0)
+    (ops : List Op) (hwf : signedOk ops = true) :
+    let s0 : State := { bal := bal, params := p, height := h, time := t }
+    solventAtEnds s0 ops → noHalt s0 ops = true := by
+  intro s0 hsol
+  exact (run_no_halt ops s0 (reach_init p bal h t h0) (hinv_init p bal h t) hwf hsol).1
+
+/-- C05.m  The two halves together, for solvent histories: from the empty chain, after any history `pre` and any
+    continuation `ops` (all signed by user accounts, solvent whenever an end-block starts, batch sizes kept at least
+    `N`, `M`) containing at least ⌊W/N⌋ + ⌊P/M⌋ + 1 end-blocks, no end-block has halted and every market that was
+    queued after `pre` is completely settled. -/
+theorem c05_settles_within_solvent (p : Params) (bal : List (Nat × Int)) (h t : Nat)
+    (h0 : getBal bal ACC_POOL = 0 ∧ getBal bal ACC_BETFEE = 0 ∧ getBal bal ACC_HOUSEFEE = 0)
+    (pre ops : List Op) (hpre : signedOk pre = true) (hops : signedOk ops = true) (k N M : Nat) (hN : 0 < N) (hM : 0 < M) :
+    let s0 : State := { bal := bal, params := p, height := h, time := t }
+    let s := run s0 pre
+    solventAtEnds s0 pre → solventAtEnds s ops → N ≤ s.params.betBatch → M ≤ s.params.obBatch →
+    batchAtLeast N M ops = true → settleBound N M s k ≤ endBlocks ops →
+    noHalt s0 pre = true ∧ noHalt s ops = true ∧
+    ∀ u ∈ s.obqueue ++ s.mqueue.take k, FullySettled (run s0 (pre ++ ops)) u := by
+  intro s0 s hs1 hs2 hNb hMb hba hcnt
+  obtain ⟨n1, hR, hH⟩ := run_no_halt pre s0 (reach_init p bal h t h0) (hinv_init p bal h t) hpre hs1
+  obtain ⟨n2, _, _⟩ := run_no_halt ops s hR hH hops hs2
+  refine ⟨n1, n2, ?_⟩
+  rw [run_split]
+  exact c05_settles_within s hR k N M hN hM hNb hMb ops hops n2 hba hcnt
+
+-- ---------------------------------------------------------------------------------------------
 -- non-vacuity
 
 def c05bTk : Tk := { ok := true, kycIgnore := true, kycApproved := false, kycId := 0 }
@@ -301,5 +367,25 @@ example :
     (let s' := run s (ops.take 12)
      s'.mqueue = [] ∧ s'.obqueue = [] ∧ s'.pending = [] ∧ statusOf s' 1 = some OB_SETTLED ∧ statusOf s' 2 = some OB_SETTLED) := by
   decide +kernel
+
+/-- the example history is solvent whenever an end-block starts, so C05.m applies to it: no halt, and market 1 is
+    completely settled after the three end-blocks -/
+example :
+    noHalt (c05bInit 2) c05bPre = true ∧ noHalt (run (c05bInit 2) c05bPre) c05bOps = true ∧
+    FullySettled (run (c05bInit 2) (c05bPre ++ c05bOps)) 1 := by
+  have h : noHalt (c05bInit 2) c05bPre = true ∧ noHalt (run (c05bInit 2) c05bPre) c05bOps = true ∧
+      ∀ u ∈ (run (c05bInit 2) c05bPre).obqueue ++ (run (c05bInit 2) c05bPre).mqueue.take 1,
+        FullySettled (run (c05bInit 2) (c05bPre ++ c05bOps)) u :=
+    c05_settles_within_solvent (c05bInit 2).params (c05bInit 2).bal 1 100 (by decide) c05bPre c05bOps
+      (by decide) (by decide) 1 2 2 (by decide) (by decide)
+      (solventAtEndsB_spec _ _ (by decide +kernel)) (solventAtEndsB_spec _ _ (by decide +kernel))
+      (by decide +kernel) (by decide +kernel) (by decide) (by decide +kernel)
+  have e : (run (c05bInit 2) c05bPre).obqueue ++ (run (c05bInit 2) c05bPre).mqueue.take 1 = [1] := by decide +kernel
+  obtain ⟨h1, h2, h3⟩ := h
+  exact ⟨h1, h2, h3 1 (by rw [e]; exact List.mem_singleton.mpr rfl)⟩
+
+/-- the state of the known finding `c05_counterexample_halt` is NOT solvent (the seventh backing part has stake −3):
+    the hypothesis of `c05_no_halt_partial` excludes it, as it must -/
+example : solventB (run kf05Init kf05Ops) = false := by decide +kernel
 
 end Sge.Core
